@@ -677,7 +677,40 @@ def gen_roundtrip(rng, tier, shard, nshards, boost):
             yield {"boundaries": [F(b) for b in bs], "tol": tol}
 
 
+def check_roundtrip_noisy(inp):
+    """a contiguous segmentation whose shared boundaries differ by float noise (< 1e-6): the documented 5-decimal
+    rounding must identify them, so intervals -> boundaries -> intervals works and reproduces the segmentation"""
+    iv = np.array(inp["intervals"], dtype=float)
+    n = iv.shape[0]
+    try:
+        b = mir_eval.util.intervals_to_boundaries(iv)
+        back = mir_eval.util.boundaries_to_intervals(b)
+    except Exception as e:  # noqa: BLE001
+        return "round trip raised %r on a contiguous segmentation with float-noise boundaries" % (e,)
+    if len(b) != n + 1:
+        return "intervals_to_boundaries returned %d boundaries for %d contiguous intervals: %r" % (len(b), n, b.tolist())
+    back = np.asarray(back)
+    if back.shape != iv.shape or np.max(np.abs(back - iv)) > 0.5e-5 + 1e-6:
+        return "boundaries_to_intervals(intervals_to_boundaries(i)) = %r, i = %r" % (back.tolist(), iv.tolist())
+    return None
+
+
+def gen_roundtrip_noisy(rng, tier, shard, nshards, boost):
+    for _ in range((150 if tier == "quick" else 2000) * boost):
+        m = rng.randint(2, 7)
+        bs = sorted(set(rng.randint(0, 6400) / 100.0 for _ in range(m + 1)))
+        if len(bs) < 3:
+            continue
+        ivs = []
+        for k in range(len(bs) - 1):
+            a = bs[k] + rng.choice([0.0, 1e-9, -1e-9, 3e-8, 2e-7, -2e-7]) if k > 0 else bs[k]
+            e = bs[k + 1] + rng.choice([0.0, 1e-9, -1e-9, 3e-8, 2e-7, -2e-7]) if k < len(bs) - 2 else bs[k + 1]
+            ivs.append([a, e])
+        yield {"intervals": ivs}
+
+
 CHECKERS = {
+    "util.intervals_roundtrip_noisy": check_roundtrip_noisy,
     "util.adjust_intervals": check_adjust_rest,
     "util.adjust_intervals:posdur": check_adjust_posdur,
     "util.adjust_intervals:labelAt": check_adjust_label,
@@ -687,6 +720,7 @@ CHECKERS = {
     "util.boundaries_roundtrip": check_roundtrip,
 }
 ORACLES = {
+    "util.intervals_roundtrip_noisy": gen_roundtrip_noisy,
     "util.adjust_intervals": gen_adjust,
     "util.adjust_intervals:posdur": gen_adjust,
     "util.adjust_intervals:labelAt": gen_adjust,
